@@ -812,6 +812,20 @@ fn text(ctx: &Ctx, loc: &mut Local) {
         '\u{a0}', '\u{e9}', '\u{fc}', '\u{130}', '\u{131}', '\u{17f}', '\u{212a}', '\u{301}', '\u{200b}', '\u{feff}', '\u{430}', '\u{435}',
         '\u{43e}', '\u{441}', '\u{443}', '\u{3bf}', '\u{ff21}', '\u{ff41}', '\u{ff4d}', '\u{ff4f}', '\u{ff4e}', '\u{1d5ba}', '\u{1f600}',
     ]);
+    // one character for every possible UTF-8 lead byte (0xC2..=0xF4), with a low and a high
+    // continuation byte: a byte-wise comparison with a wrong mask pairs some lead byte with a letter
+    for lead in 0xC2u32..=0xDF {
+        for low in [0x05u32, 0x3F] {
+            alphabet.extend(char::from_u32((lead & 0x1F) << 6 | low));
+        }
+    }
+    for lead in 0xE0u32..=0xEF {
+        let second = if lead == 0xE0 { 0x20 } else { 0x00 }; // E0 needs A0.., ED stays below the surrogates
+        alphabet.extend(char::from_u32((lead & 0x0F) << 12 | second << 6 | 0x01));
+    }
+    for cp in [0x1_0000u32, 0x4_0000, 0x8_0000, 0xC_0000, 0x10_0000] {
+        alphabet.extend(char::from_u32(cp));
+    }
     for month in [false, true] {
         let names: &[&str] = if month { &MO_LONG } else { &WD_LONG };
         let other: &[&str] = if month { &WD_LONG } else { &MO_LONG };
